@@ -10,7 +10,9 @@ import (
 	"encoding/binary"
 	"encoding/json"
 	"errors"
+	"hash/crc32"
 	"net"
+	"os"
 	"path/filepath"
 	"strings"
 
@@ -100,4 +102,209 @@ func vC07Receiver(legacy bool) {
 	}
 	vAssert(vFSConfined(parent, "out"), "the receiver creates, modifies and deletes nothing outside its output directory")
 	vCover("C07 receiver ran")
+}
+
+// ---------------------------------------------------------------------------------------------
+// C02 (receiver side): no false success. One file of 1..8 bytes in 4-byte chunks is announced; every
+// chunk frame is good, has a wrong CRC field, a corrupted payload, is missing, or is cut short; the
+// control stream ends after FileBegin, after FileEnd, or after End. The engine explores every order in
+// which the receiver's main select can observe the resulting events; natively the scenario is repeated
+// because Go picks among ready select cases at random.
+
+func H_C02_receiver()      { vC02Receiver([]int{2, 5}) }
+func H_C02_receiver_deep() { vC02Receiver([]int{1, 4, 5, 8}) }
+
+func vC02Receiver(sizes []int) {
+	for iter := 0; iter < vRepeat(400); iter++ {
+		vResetInputs()
+		if vC02ReceiverOnce(sizes) {
+			return
+		}
+	}
+}
+
+func vC02ReceiverOnce(sizes []int) bool {
+	size := sizes[vChoice("sizeIdx", len(sizes))]
+	src := vBytes("src", size)
+	item := manifest.FileItem{RelPath: "f", Size: int64(size), ID: "id"}
+	m := manifest.Manifest{Items: []manifest.FileItem{item}, TotalBytes: int64(size), FileCount: 1}
+	key := fileKeyForItem(item)
+	control := &vMemStream{buf: vControlBytes(m)}
+	_ = writeDataStreams(control, DataStreams{Count: 1})
+	_ = writeFileBegin(control, FileBegin{RelPath: "f", FileSize: uint64(size), ChunkSize: 4, StreamID: key, HashAlg: HashAlgCRC32C})
+	data := &vMemStream{}
+	total := (size + 3) / 4
+	allGood := true
+	for i := 0; i < total; i++ {
+		lo, hi := i*4, i*4+4
+		if hi > size {
+			hi = size
+		}
+		payload := append([]byte{}, src[lo:hi]...)
+		sum := crc32.Checksum(payload, crc32cTable)
+		kind := vChoice("frame", 5)
+		if kind != 0 {
+			allGood = false
+		}
+		vTag([]string{"frame=good", "frame=badcrc", "frame=corrupt", "frame=missing", "frame=cut"}[kind])
+		switch kind {
+		case 1: // wrong CRC field
+			bad := vU32("badCRC")
+			vAssume(bad != sum)
+			sum = bad
+		case 2: // payload corrupted in flight, CRC of the original
+			k := vChoice("flipAt", len(payload))
+			x := vU8("flipTo")
+			vAssume(x != payload[k])
+			payload[k] = x
+			// the corruption is one that CRC-32C detects (every change of up to 4 bytes is; a 2^-32 collision
+			// for longer payloads is outside the claim)
+			vAssume(crc32.Checksum(payload, crc32cTable) != sum)
+		case 3: // frame never arrives
+			continue
+		}
+		hdr := make([]byte, dataChunkHeaderLen)
+		binary.BigEndian.PutUint64(hdr[0:8], key)
+		binary.BigEndian.PutUint32(hdr[8:12], uint32(i))
+		binary.BigEndian.PutUint32(hdr[12:16], uint32(len(payload)))
+		binary.BigEndian.PutUint32(hdr[16:20], sum)
+		data.buf = append(data.buf, hdr...)
+		if kind == 4 { // cut short: the connection is lost inside the payload
+			data.buf = append(data.buf, payload[:len(payload)-1]...)
+			break
+		}
+		data.buf = append(data.buf, payload...)
+	}
+	tail := vChoice("controlTail", 3)
+	vTag([]string{"control=FileEnd+End", "control=FileEnd", "control=eof"}[tail])
+	switch tail {
+	case 0:
+		_ = writeFileEnd(control, FileEnd{StreamID: key})
+		_ = writeControlEnd(control)
+	case 1:
+		_ = writeFileEnd(control, FileEnd{StreamID: key})
+	}
+	conn := &vScriptConn{streams: []Stream{control, data}}
+	out := vTempDir() + "/out"
+	failedFiles := 0
+	opts := Options{NoRootDir: true, Resume: vBool("resume"), FileDoneFn: func(rel string, ok bool) {
+		if !ok {
+			failedFiles++
+		}
+	}}
+	_, err := RecvManifestMultiStream(vContext("ctx", false), conn, out, opts)
+	if err != nil {
+		vCover("C02 receiver: reports failure")
+		return false
+	}
+	vCover("C02 receiver: reports success")
+	got, rerr := os.ReadFile(out + "/f")
+	ok := rerr == nil && len(got) == size && vBytesEq(got, src) && failedFiles == 0
+	if !vSymbolic() {
+		if ok {
+			return false // natively: try again, another schedule may expose it
+		}
+		vAssert(false, "success is reported only if the received file equals the source and no file failed")
+		return true
+	}
+	vAssert(rerr == nil && len(got) == size, "success is reported only if the output file exists with the announced size")
+	vAssert(vBytesEq(got, src), "success is reported only if the received file equals the source")
+	vAssert(failedFiles == 0, "success is never reported after a file was declared failed")
+	if allGood {
+		vCover("C02 receiver: clean transfer succeeds")
+	}
+	return false
+}
+
+// ---------------------------------------------------------------------------------------------
+// C01 / C03 (receiver side): a healthy sender delivers a small tree (a directory, a zero-length file
+// in it, one data file around the chunk boundary) with frames in either order: under every schedule
+// of the receiver's goroutines the call returns success and the tree is exactly the announced one.
+
+func H_C01_tree()      { vC01Tree([]int{5}, false) }
+func H_C01_tree_deep() { vC01Tree([]int{1, 4, 5, 8}, true) }
+
+func vC01Tree(sizes []int, full bool) {
+	size := sizes[vChoice("sizeIdx", len(sizes))]
+	src := vBytes("src", size)
+	dir := manifest.FileItem{RelPath: "d", IsDir: true}
+	empty := manifest.FileItem{RelPath: "d/e", Size: 0, ID: "ide"}
+	file := manifest.FileItem{RelPath: "f", Size: int64(size), ID: "idf"}
+	m := manifest.Manifest{Root: "r", Items: []manifest.FileItem{dir, empty, file}, TotalBytes: int64(size), FileCount: 2, FolderCount: 1}
+	kE, kF := fileKeyForItem(empty), fileKeyForItem(file)
+	control := &vMemStream{buf: vControlBytes(m)}
+	_ = writeDataStreams(control, DataStreams{Count: 1})
+	emptyFirst := true
+	if full {
+		emptyFirst = vBool("emptyFirst")
+	}
+	if emptyFirst {
+		_ = writeFileBegin(control, FileBegin{RelPath: "d/e", FileSize: 0, ChunkSize: 4, StreamID: kE, HashAlg: HashAlgCRC32C})
+		_ = writeFileEnd(control, FileEnd{StreamID: kE})
+	}
+	_ = writeFileBegin(control, FileBegin{RelPath: "f", FileSize: uint64(size), ChunkSize: 4, StreamID: kF, HashAlg: HashAlgCRC32C})
+	data := &vMemStream{}
+	total := (size + 3) / 4
+	reversed := vBool("reversed")
+	for n := 0; n < total; n++ {
+		i := n
+		if reversed {
+			i = total - 1 - n
+		}
+		lo, hi := i*4, i*4+4
+		if hi > size {
+			hi = size
+		}
+		hdr := make([]byte, dataChunkHeaderLen)
+		binary.BigEndian.PutUint64(hdr[0:8], kF)
+		binary.BigEndian.PutUint32(hdr[8:12], uint32(i))
+		binary.BigEndian.PutUint32(hdr[12:16], uint32(hi-lo))
+		binary.BigEndian.PutUint32(hdr[16:20], crc32.Checksum(src[lo:hi], crc32cTable))
+		data.buf = append(append(data.buf, hdr...), src[lo:hi]...)
+	}
+	_ = writeFileEnd(control, FileEnd{StreamID: kF})
+	if !emptyFirst {
+		_ = writeFileBegin(control, FileBegin{RelPath: "d/e", FileSize: 0, ChunkSize: 4, StreamID: kE, HashAlg: HashAlgCRC32C})
+		_ = writeFileEnd(control, FileEnd{StreamID: kE})
+	}
+	_ = writeControlEnd(control)
+	conn := &vScriptConn{streams: []Stream{control, data}}
+	out := vTempDir() + "/out"
+	noRoot := false
+	if full {
+		noRoot = vBool("noRootDir")
+	}
+	base := out + "/r"
+	if noRoot {
+		base = out
+	}
+	okFiles := 0
+	_, err := RecvManifestMultiStream(vContext("ctx", false), conn, out, Options{NoRootDir: noRoot, Resume: vBool("resume"), FileDoneFn: func(rel string, ok bool) {
+		if ok {
+			okFiles++
+		}
+	}})
+	vAssert(err == nil, "a healthy transfer of a valid tree succeeds")
+	vAssert(okFiles == 2, "every file of the manifest is confirmed exactly once")
+	got, rerr := os.ReadFile(base + "/f")
+	vAssert(rerr == nil && len(got) == size, "the data file exists with the announced length")
+	vAssert(vBytesEq(got, src), "the data file is byte-for-byte the source")
+	e, eerr := os.ReadFile(base + "/d/e")
+	vAssert(eerr == nil && len(e) == 0, "the zero-length file exists and is empty")
+	st, serr := os.Stat(base + "/d")
+	vAssert(serr == nil && st.IsDir(), "the directory of the manifest exists")
+	vCover("C01 tree delivered")
+}
+
+// H_C01_streamid: virtual stream ids of a multi-connection transfer never collide.
+func H_C01_streamid() {
+	c1, c2 := vInt("conn1"), vInt("conn2")
+	s1, s2 := vU64("stream1"), vU64("stream2")
+	vAssume(c1 >= 0 && c1 < 256)
+	vAssume(c2 >= 0 && c2 < 256)
+	vAssume(s1 < 1<<56)
+	vAssume(s2 < 1<<56)
+	vAssume(c1 != c2 || s1 != s2)
+	vAssert(makeVirtualStreamID(c1, s1) != makeVirtualStreamID(c2, s2), "distinct (connection, stream) pairs get distinct virtual stream ids")
+	vCover("C01 stream ids")
 }
